@@ -2,10 +2,19 @@
 
 package spec
 
-import auto "github.com/moorara/algo/automata"
+import (
+	"fmt"
+
+	auto "github.com/moorara/algo/automata"
+)
 
 // VerifRegexToDFA exposes the pattern-to-automaton pipeline (parse, determinise, minimise, prune, renumber).
 func VerifRegexToDFA(regex string) (*auto.DFA, error) { return regexToDFA(regex) }
 
 // VerifStringToDFA exposes the automaton of a string-literal definition.
 func VerifStringToDFA(value string) *auto.DFA { return stringToDFA(value) }
+
+// VerifSharedState prints the package-level tables of this package (read-only by convention).
+func VerifSharedState() string {
+	return fmt.Sprintf("terminalNames=%v", terminalNames)
+}
